@@ -102,7 +102,16 @@ func showVarsR(v types.Vars) string {
 	}
 	l := []string{}
 	for k, x := range v {
-		l = append(l, k+"="+Hex(fmt.Sprint(x)))
+		e := k + "=" + Hex(fmt.Sprint(x))
+		if k == "PC_REPLICA_NUM" {
+			// the injected replica number is a number (templates compare and format it as one)
+			if _, ok := x.(int); ok {
+				e += "#int"
+			} else {
+				e += fmt.Sprintf("#%T", x)
+			}
+		}
+		l = append(l, e)
 	}
 	sort.Strings(l)
 	return strings.Join(l, ",")
